@@ -20,6 +20,7 @@ from __future__ import annotations
 
 import collections
 import contextlib
+import copy
 import itertools
 
 import numpy as np
@@ -259,6 +260,7 @@ PRODUCTS = {
     # name: (underlying, discretisation, maturity)  -> number of intervals of the product's time grid
     "spot-1": ("spot", None, 1.0),        # 1 interval  [0, 1]
     "spot-05": ("spot", None, 0.5),       # 1 interval  [0, 0.5]
+    "spot-09": ("spot", None, 0.9),       # 1 interval  [0, 0.9]: 0.9 = 3 * 0.3 in decimal, not in binary
     "asian-y1": ("asian", "YEARLY", 1.0),  # 1 interval
     "asian-y2": ("asian", "YEARLY", 2.0),  # 2 intervals of length 1
     "asian-y3": ("asian", "YEARLY", 3.0),  # 3 intervals of length 1
@@ -287,6 +289,9 @@ MODELS = {
     "exp-hem": {"family": "hem", "exp": True, "params": {}, "r": 0.02, "d": 0.0, "spot": 100.0},
     "cgmy12": {"family": "cgmy", "exp": False, "params": {"c": 0.5, "g": 6.0, "m": 6.0, "y": 1.2}},
 }
+# construction route "reinit" of mc.alphabets (parameter object of a donor model re-assigned and re-initialised)
+for _name in ("hem", "merton", "cgmy12"):
+    MODELS[_name + "-reinit"] = dict(MODELS[_name], via="reinit")
 
 COPULA = {"margins": ["hem", "merton"], "copula": {"kind": "clayton", "theta": 0.7, "eta": 0.3}}
 
@@ -313,6 +318,20 @@ SIMS = {
     "coupling-hem-bsta1d": ("coupling-1d", "hem", 1, "BINARYSEARCHTREEADAPTED1D"),
     "copula-chain-bsta": ("copula-chain", None, 0, "BINARYSEARCHTREEADAPTED"),
     "coupling-copula-bsta": ("coupling-copula", None, 1, "BINARYSEARCHTREEADAPTED"),
+    # models reached through the "reinit" construction route
+    "levy-merton-reinit": ("levy", "merton-reinit", 0),
+    "chain-cgmy12-reinit": ("chain", "cgmy12-reinit", 0),
+    "coupling-hem-reinit": ("coupling-1d", "hem-reinit", 1),
+    # level 0 of a coupling object: the multilevel engine simulates it through coupling.simulate_one_path()
+    "coupling-hem-l0": ("coupling-1d", "hem", 0),
+    "coupling-copula-l0": ("coupling-copula", None, 0),
+    # 5th entry: construction route. "engine" = the route of the multilevel engine: at every level pre_computation and
+    # one simulated path, then copy.deepcopy of the coupling object, then next_level on the copy
+    "coupling-hem-engine": ("coupling-1d", "hem", 1, "INVERSION", "engine"),
+    "coupling-cgmy12-engine": ("coupling-1d", "cgmy12", 1, "INVERSION", "engine"),
+    "coupling-copula-engine": ("coupling-copula", None, 1, "INVERSION", "engine"),
+    "coupling-hem-l2-engine": ("coupling-1d", "hem", 2, "INVERSION", "engine"),
+    "coupling-copula-l2-engine": ("coupling-copula", None, 2, "INVERSION", "engine"),
 }
 
 
@@ -330,6 +349,9 @@ class Driver:
         self.sim, self.product_name, self.mode, self.eps = sim, product_name, mode, eps
         self.cls, self.model_name, self.levels = SIMS[sim][:3]
         self.method_name = SIMS[sim][3] if len(SIMS[sim]) > 3 else "INVERSION"
+        self.route = SIMS[sim][4] if len(SIMS[sim]) > 4 else "direct"
+        self.last_path = None  # the object returned by the last simulation, as returned (not copied)
+        self.other = None  # a second simulator of the same class (see other_object)
         self.rng = ScriptedRNG()
         self.rec = Recorder()
         self.product = make_product(product_name, stochastic_dates=(mode != "fixed"))
@@ -373,7 +395,8 @@ class Driver:
 
     @property
     def coupled(self):
-        return self.cls.startswith("coupling")
+        """the paths carry a fine and a coarse component (a coupling object at level >= 1)"""
+        return self.cls.startswith("coupling") and self.levels > 0
 
     @property
     def dim(self):
@@ -396,7 +419,7 @@ class Driver:
                 obj.initialisation(self.product, max_step_epsilon=eps)
                 obj.pre_computation(n_batch, self.product)
                 self.proc = obj
-            elif not self.coupled:
+            elif not self.cls.startswith("coupling"):
                 stack.enter_context(spy_sampler_class(obj.sampling, self.rng, self.rec))
                 obj.initialisation(self.product, max_step_epsilon=eps)
                 obj.pre_computation(n_batch, self.product)
@@ -406,9 +429,18 @@ class Driver:
                 obj.initialisation(self.product, max_step_epsilon=eps)
                 for lev in range(self.levels):
                     last = lev == self.levels - 1
+                    if self.route == "engine":
+                        # as the multilevel engine: the object of the current level has simulated before it is copied
+                        # and the copy is taken to the next level
+                        self._warm_up(obj, with_coupling=lev > 0)
+                        obj = copy.deepcopy(obj)
+                        self.obj = obj
+                        self.rng.begin_path(counts, times)
                     # intermediate levels pre-compute nothing (0 paths); the last one pre-draws the batch
                     obj.next_level(mc_paths=n_batch if last else 0, path_managers=None, product=self.product,
                                    max_step_epsilon=eps)
+                if self.levels == 0:
+                    obj.pre_computation(n_batch, self.product)
                 self.proc = obj.fine_process
             self.pre_log = list(self.rng.log)
             self.pre_brownian = list(self.rng.brownian)
@@ -474,7 +506,8 @@ class Driver:
 
     # -- one path --------------------------------------------------------------------------------------------------
     def simulate(self, counts=(), times=(), reload=True):
-        """Run the real simulator once. Returns (times, diffusion, jumps) as float arrays."""
+        """Run the real simulator once. Returns (times, diffusion, jumps) as float arrays (copies: a snapshot); the object
+        the library returned is kept as `last_path`."""
         if reload:
             self.rng.begin_path(counts, times)
         self.rec.reset()
@@ -482,8 +515,76 @@ class Driver:
             sp = self.obj.simulate_one_path_with_coupling()
         else:
             sp = self.obj.simulate_one_path()
+        self.last_path = sp
+        return self.snapshot(sp)
+
+    @staticmethod
+    def snapshot(sp):
+        """(times, diffusion, jumps) of a path object as fresh float arrays"""
         t = np.array([float(x) for x in sp.times()], dtype=float)
         return t, np.array(sp.diffusion_path, dtype=float), np.array(sp.jump_path, dtype=float)
+
+    # -- histories -------------------------------------------------------------------------------------------------
+    def _unit_script(self):
+        """script of one path with one jump in the middle of every interval"""
+        n = len(self.grid_times) - 1
+        return [1] * n, [[0.5]] * n
+
+    def _warm_up(self, obj, with_coupling):
+        """pre_computation for one path and one simulated path (discarded) on `obj`"""
+        counts, times = self._unit_script()
+        self.rng.begin_path(counts, times if self.mode != "fixed" else ())
+        obj.pre_computation(1, self.product)
+        if self.mode != "fixed":
+            self.rng.begin_path(counts, times)
+        if with_coupling:
+            obj.simulate_one_path_with_coupling()
+        else:
+            obj.simulate_one_path()
+        self.rec.reset()
+
+    def precompute_again(self, counts=(), reinit=False):
+        """A second public `pre_computation` on the same object (the engines call reset_one_simulation_cost and
+        pre_computation once per pass); with `reinit` the public `initialisation` for the same product and maximum step comes
+        first (the engines call it once per pricing). `counts` is the script of the jump counts pre-drawn (fixed dates;
+        nothing is drawn in the other modes). Returns the number of paths."""
+        n = max(1, len(self.grid_times) - 1)
+        n_batch = max(1, len(counts) // n) if self.mode == "fixed" else 1
+        self.rng.begin_path(counts, ())
+        if reinit:
+            self.obj.initialisation(self.product, max_step_epsilon=self.eps)
+        elif hasattr(self.obj, "reset_one_simulation_cost"):
+            self.obj.reset_one_simulation_cost()
+        self.obj.pre_computation(n_batch, self.product)
+        self.pre_brownian = list(self.rng.brownian)
+        self.pre_lams = list(self.rng.poisson_lams)
+        self.n_batch = n_batch
+        return n_batch
+
+    def other_object(self, next_level=True):
+        """A second simulator of the same class, obtained as the multilevel engine obtains the object of the next level:
+        copy.deepcopy of the object in use and, for a coupling object (when `next_level`), next_level on the copy
+        (pre-computing one path). It then simulates one path (discarded). Whatever the two objects share (class
+        attributes, module-level caches, default arguments) is touched by this."""
+        counts, times = self._unit_script()
+        self.rng.begin_path(counts if self.mode == "fixed" else (), ())
+        if self.other is None and self.cls.startswith("coupling") and next_level:
+            self.other = copy.deepcopy(self.obj)
+            self.other.next_level(mc_paths=1, path_managers=None, product=self.product, max_step_epsilon=self.eps)
+            self._other_coupled = True
+        else:
+            if self.other is None:
+                self.other = copy.deepcopy(self.obj)
+                self._other_coupled = self.coupled
+            self.other.pre_computation(1, self.product)
+        if self.mode != "fixed":
+            self.rng.begin_path(counts, times)
+        if self._other_coupled:
+            sp = self.other.simulate_one_path_with_coupling()
+        else:
+            sp = self.other.simulate_one_path()
+        self.rec.reset()
+        return sp
 
     # -- what the reference needs from the object ------------------------------------------------------------------
     def diffusion_coefficients(self):
@@ -496,7 +597,11 @@ class Driver:
         if self.cls == "copula-chain":
             return [np.array(o._path_simulation.diffusion_matrix, dtype=float)]
         if self.cls == "coupling-1d":
+            if self.levels == 0:
+                return [float(o.fine_process.equivalent_diffusion_coefficient)]
             return [float(o.equivalent_diffusion_coefficient_fine), float(o.equivalent_diffusion_coefficient_coarse)]
+        if self.levels == 0:
+            return [np.array(o.fine_process._path_simulation.diffusion_matrix, dtype=float)]
         return [np.array(o._diffusion_matrix_h, dtype=float), np.array(o._diffusion_matrix_2h, dtype=float)]
 
     def state_value(self, inc):
